@@ -993,3 +993,57 @@ def condition_of_switch(g, sb, target):
                 if pi is not None and cx["res"] == pi[0]:
                     return ("cmp:" + cx["op"], (truth != (nots % 2 == 1)))
     return ("bool", truth != (nots % 2 == 1))
+
+
+def path_condition_sets(g, target, limit=2000):
+    """All acyclic paths from the entry to `target`, each as the list of (kind, names, value) of the switches taken
+    (vocabulary of conditions_at; names are shallow: fields, callee names, literals, constants, debug names of the operands)."""
+    vn = g.names()
+
+    def descr(sb, nxt):
+        st = g.term(sb)
+        d = condition_of_switch(g, sb, nxt)
+        if d is None:
+            return None
+        names = set()
+        ops = [st["d"]]
+        for cx in comparisons(g):
+            br = cmp_branches(g, cx)
+            if br and br[0] == sb:
+                ops = [cx["a"], cx["b"]]
+        for op in ops:
+            pl = op_place(op)
+            if pl is not None and pl[0] in vn:
+                names.add(vn[pl[0]])
+            for a in g.origins(op):
+                if a[0] == "field":
+                    names.add(a[1])
+                elif a[0] in ("call", "const"):
+                    names.add(a[1].split("::")[-1])
+                elif a[0] == "lit":
+                    names.add("lit%s" % a[1])
+                elif a[0] == "arg":
+                    names.add(vn.get(a[1], "arg%d" % a[1]))
+        return (d[0], frozenset(names), d[1])
+    out = []
+    n = [0]
+
+    def dfs(b, acc, seen):
+        n[0] += 1
+        if n[0] > limit:
+            return
+        if b == target:
+            out.append(list(acc))
+            return
+        if b in seen:
+            return
+        t = g.term(b)
+        nxts = [t.get("target")] if t["k"] in ("call", "drop", "assert") else g.succ(b)
+        for s in sorted(set(x for x in nxts if x is not None)):
+            if t["k"] == "switch":
+                dsc = descr(b, s)
+                dfs(s, acc + ([dsc] if dsc else []), seen | {b})
+            else:
+                dfs(s, acc, seen | {b})
+    dfs(0, [], frozenset())
+    return out
